@@ -160,6 +160,9 @@ macro_rules! impl_inner_observer {
         let mut inner = self.0.rc_deref_mut();
         if let Some(data) = inner.as_mut() {
           if let Some(task) = data.subscribe_tasks.pop_front() {
+            // The task subscribes the next inner observable, which may emit
+            // (and so re-enter this cell) synchronously: release it first.
+            drop(inner);
             task();
           } else {
             data.subscribed -= 1;
